@@ -807,10 +807,71 @@ def direct_cases(ctx, rng, lib):
                 add(f, [x, me], okind=ok)
             add(f, [a_t(lefts["1d"]), me], okind="1d")
             add(f, [me, a_t(rights["1d"])], okind="1d")
-    # every function of the FIRST table that is also reachable with the operator second (e.g. registered
-    # symmetrically) is covered above only if it is in `tables`; the ones the property names for the first position
-    # only must at least be loud with the operator second
+    # ---- batches of constants in EVERY broadcastable layout, against operators with 1 and >= 2 batch dimensions,
+    # including EQUAL batch sizes (where a constant aligned with the wrong batch dimension keeps the shape of the result
+    # and only the values tell): for a batch shape (b1..bk) every shape (m1..mk,1,1) with mi in {1, bi}, the same with
+    # leading 1s dropped ((b',1,1), (1,1,1), (1,1)), one layout with an additional leading batch dimension, and 0-d;
+    # values are distinct per element, operators have distinct matrices per batch index.
+    for cname, batch, n in const_plans(ctx):
+        e = None
+        for attempt in range(4):
+            try:
+                e = ref_expr(rng, cname, batch, n, False)      # fixed structure: only the numbers depend on the seed
+                if e is not None and healthy(e, torch.float64, lib.root):
+                    break
+            except Exception:      # noqa
+                pass
+            e = None
+        if e is None:
+            continue
+        me = a_op(e)
+        for shape in constant_layouts(batch):
+            k = int(math.prod(shape))
+            vals = rng.sample(CONST_POOL, k)
+            c = {"k": "t", "t": tspec(shape, vals)}
+            ok = "const(%s)" % ",".join(str(x) for x in shape)
+            for f in ("torch.mul", "torch.div", "torch.add", "torch.sub"):
+                add(f, [me, c], okind=ok)
+                add(f, [c, me], okind=ok)
+            for f in TENSOR_METHODS[:4]:
+                add(f, [c, me], okind=ok)
+            for sym in "*/+-":
+                add("binop:" + sym, [me, c], okind=ok)
+                add("binop:" + sym, [c, me], okind=ok)
     return cases
+
+
+CONST_POOL = [2, -3, 4, 5, -6, 7, 8, -9, 0.5, -0.25, 1.5, 10, -11, 12, 13, -14, 0.75, -1.25]
+
+
+def const_plans(ctx):
+    D, G, U, T = "DenseLinearOperator", "DiagLinearOperator", "UserMinimal", "TriangularLinearOperator"
+    plans = [(D, [2, 2], 2), (D, [3, 3], 2), (D, [2, 3], 2), (G, [2, 2], 2), (D, [2], 2), (U, [2, 2], 2), (T, [2, 2], 2)]
+    if not ctx.quick:
+        plans += [(G, [3, 3], 3), ("ToeplitzLinearOperator", [2, 2], 3), (D, [2, 2, 2], 2), (D, [3, 1, 3], 2),
+                  ("KroneckerProductLinearOperator", [2, 2], 4), ("SumLinearOperator", [3, 3], 2), (T, [3], 2), (U, [3, 3], 2)]
+    return plans
+
+
+def constant_layouts(batch):
+    """every shape of a batch of constants that broadcasts against an operator of batch shape `batch`"""
+    import itertools
+    out = []
+
+    def put(s):
+        if s not in out:
+            out.append(s)
+    for mask in itertools.product(*[(1, b) if b != 1 else (1,) for b in batch]):
+        full = list(mask) + [1, 1]
+        put(full)
+        while len(full) > 2 and full[0] == 1:
+            full = full[1:]
+            put(list(full))
+    put([2] + [1] * len(batch) + [1, 1])        # one more batch dimension than the operator (the result gains it)
+    put([])                                       # 0-d
+    return out
+
+
 
 
 # ------------------------------------------------------------------------------------------ one-operand functions (F)
@@ -1376,7 +1437,7 @@ def outside_signature_loud(case, res):
     that LinearOperator.__add__ documents; the library rejects it loudly (ValueError from DenseLinearOperator), which is
     accepted -- a VALUE returned for such a call must still be the dense value"""
     base = case["call"].replace("binop:", "").split(".")[-1]
-    return case.get("okind") == "0d" and base in ("add", "sub", "+", "-") and exn_name(res[1]) == "ValueError"
+    return case.get("okind") in ("0d", "const()") and base in ("add", "sub", "+", "-") and exn_name(res[1]) == "ValueError"
 
 
 def cell_of(k):
@@ -1399,6 +1460,9 @@ def cell_of(k):
         return "zero-add-scalar"
     if k["sem"] in ("add", "sub") and k["other"] == "scalar" and f.startswith("raises:"):
         return "scalar-addsub-unsupported"
+    if k["class"] == "TriangularLinearOperator" and k["sem"] in ("mul", "div") and k["other"] == "tensor" and f in ("raises:RuntimeError", "value") \
+            and str(k.get("okind", "")).startswith("const(") and k.get("okind") not in ("const()",) and not set(k["okind"][6:-1].split(",")) <= {"1"}:
+        return "triangular-mul-batch-constants"
     extra = ("/pos%d" % k["npos"] if k.get("npos") else "") + ("/" + k["okind"] if k.get("okind") else "")
     return "%s/%s/%s/%s/%s/%s%s" % (k["class"], k["sem"], k["route"], k["other"], k["kw"], f, extra)
 
@@ -1430,7 +1494,8 @@ def check_value_case(ctx, lib, real, case):
     if fail is None:
         eres = expected_method_call(lib, out, case)
         out["expected_method"] = eres
-        if eres is not None and not same_outcome(res, eres):
+        if eres is not None and not same_outcome(res, eres) and not (
+                res[0] == "ok" and eres[0] == "err" and outside_signature_loud(case, eres)):
             fail = "differs-from-expected-method"
     return out, fail
 
@@ -1787,7 +1852,8 @@ def correspondence(ctx, meta, rng, coq=True, width=None, broken=None):
         tb["functions_s"] = round(time.time() - t1, 1)
         t1 = time.time()
         # ---- shrink the failing value cases that are not listed known findings (simplest operator class first)
-        order = sorted(fails.items(), key=lambda kv: (CLASS_RANK.get(kv[1][0].get("class"), 9), kv[0]))
+        fail_rank = lambda f: 0 if f == "value" else (1 if f == "no-raise" else (2 if str(f).startswith("raises") else 3))
+        order = sorted(fails.items(), key=lambda kv: (CLASS_RANK.get(kv[1][0].get("class"), 9), fail_rank(kv[1][0].get("fail")), kv[0]))
         to_report = []
         n_new = 0
         for sig, (k2, case, out) in order:
